@@ -12,6 +12,7 @@ FILL = '@_ZNK13GeographicLib11AuxLatitude9fillcoeffEiii'
 CLEN = '@_ZN13GeographicLib11AuxLatitude8ClenshawEbddPKdi'
 AUX = ['phi', 'beta', 'theta', 'mu', 'chi', 'xi']
 ASSUMPTIONS = [
+    'EllipticFunction symmetry obligations: the Carlson integrals RF, RD, RJ are opaque (uninterpreted functions of their arguments); environment fact assumed about their values: on the first quadrant the incomplete integral before the final sign is applied lies in (0, complete] (positive integrands); sn in (0,1], dn > 0; the values of the integrals themselves are outside the claim',
     '[REAL] obligations: exact real meaning of the floating-point operations; rounding/NaN/overflow outside the claim',
     'first-principles oracle (vfw/series.py) for the 12 conversions among geographic, parametric, geocentric and rectifying latitude: closed forms tan(beta)=(1-f)tan(phi), tan(theta)=(1-f)^2 tan(phi), the meridian-arc integral and its reversion, and series composition',
     'the conversions involving the conformal and authalic latitudes are compared with the repository\'s order-8 tables (independent second copy), not with first principles',
@@ -19,7 +20,7 @@ ASSUMPTIONS = [
 ]
 
 def prepare(ctx):
-    H.ir_module(ctx, W); H.ir_module(ctx, W, defines=('GEOGRAPHICLIB_AUXLATITUDE_ORDER=8',)); H.native(ctx, W)
+    H.ir_module(ctx, W); H.ir_module(ctx, W, defines=('GEOGRAPHICLIB_AUXLATITUDE_ORDER=8',)); H.native(ctx, W); H.ir_module(ctx, WE); H.native(ctx, WE)
 
 def coeff_terms(m, nsym, auxin, auxout, L):
     offs = H.offsets(m, 'AuxLatitude'); ex = rsym.Exec(m)
@@ -113,9 +114,64 @@ def ob_clenshaw(ctx, sinp, K):
     return polyid.check(ctx, 'AuxLatitude::Clenshaw(sinp=%d)' % sinp, items, specs, vars_, [s * s + c * c == 1], nat, specval=specval, points=points,
                         functions=['GeographicLib::AuxLatitude::Clenshaw'], bounds={'K': '0..%d' % K})
 
+# ---- EllipticFunction: the incomplete integrals F, E, D, Pi, G, H obey the trig-like symmetries with their OWN complete integral
+WE = 'w_Elliptic'
+ELL = {'F': ('@_ZNK13GeographicLib16EllipticFunction1FEddd', '_kKc', 0), 'E': ('@_ZNK13GeographicLib16EllipticFunction1EEddd', '_eEc', 1), 'D': ('@_ZNK13GeographicLib16EllipticFunction1DEddd', '_dDc', 2),
+       'Pi': ('@_ZNK13GeographicLib16EllipticFunction2PiEddd', '_pPic', 3), 'G': ('@_ZNK13GeographicLib16EllipticFunction1GEddd', '_gGc', 4), 'H': ('@_ZNK13GeographicLib16EllipticFunction1HEddd', '_hHc', 5)}
+def ob_ell_sym(ctx, name):
+    import ctypes
+    m = H.ir_module(ctx, WE); o = H.offsets(m, 'EllipticFunction'); fn, comp, which = ELL[name]
+    sn, cn, dn = z3.Real('sn'), z3.Real('cn'), z3.Real('dn')
+    mem_syms = {off: z3.Real('Ell_%d' % off) for off in range(0, H.sizeof(m, 'EllipticFunction'), 8)}
+    carl = {'@_ZN13GeographicLib16EllipticFunction2RFEddd': lambda ex, a, mem: ex.UF('RF', 3)(*a), '@_ZN13GeographicLib16EllipticFunction2RDEddd': lambda ex, a, mem: ex.UF('RD', 3)(*a),
+            '@_ZN13GeographicLib16EllipticFunction2RJEdddd': lambda ex, a, mem: ex.UF('RJ', 4)(*a)}
+    base = [sn > 0, sn <= 1, dn > 0]
+    def cs(ex, a, mem):        # copysign(x, y): the usual model, with the magnitude argument recorded (the value before the final sign is applied)
+        mem.setdefault('!raw', []).append(a[0]); return rsym._copysign(ex, a, mem)
+    def run(s_, c_, assume):
+        ex = rsym.Exec(m, opaque=carl, libm={'llvm.copysign.f64': cs}, assume=base + assume)
+        ps = ex.run_all(fn, lambda ex, mem: [ex.new_obj(mem, 'obj', dict(mem_syms)), s_, c_, dn])
+        return ps
+    C = mem_syms[o[comp]]
+    q = 0; ss = 0.0; bad = None; unk = []
+    def prove(nm, claim, cond, pt):
+        nonlocal q, ss, bad
+        st, model, dt = rsym.prove(claim, cond, timeout_ms=60000); q += 1; ss += dt
+        if st == 'sat' and bad is None: bad = {'kind': 'ell', 'fn': name, 'which': which, 'claim': nm, 'pt': pt}
+        elif st == 'unknown': unk.append(nm)
+    A = run(sn, cn, [cn > 0]); B = run(sn, -cn, [cn > 0]); Z = run(sn, rsym.RV(0), []); N = run(-sn, cn, [cn > 0])
+    if not (A and B and Z and N): return {'verdict': 'inconclusive', 'detail': 'no path'}
+    notbase = lambda p: [c for c in p.cond if not any(c is b_ for b_ in base)]
+    for pa in A:
+        # environment fact about the Carlson values: the integrands are positive, so 0 < X(phi) <= X(pi/2) for phi in (0, pi/2]
+        raw = pa.mem.get('!raw') or [pa.ret]
+        env = [raw[-1] > 0, raw[-1] <= C]
+        for pb in B:
+            prove('second quadrant: %s(sn, -cn, dn) = 2 %s() - %s(sn, cn, dn) with the complete integral of the SAME kind' % (name, name, name), pb.ret + pa.ret == 2 * C, base + [cn > 0] + env + notbase(pa) + notbase(pb), 'reflect')
+        for pn in N:
+            prove('odd in sn', pn.ret == -pa.ret, base + [cn > 0] + env + notbase(pa) + notbase(pn), 'odd')
+    for pz in Z:
+        prove('at the quarter period the value is the complete integral of the same kind', pz.ret == C, base + [C > 0] + notbase(pz), 'quarter')
+    r = {'queries': q, 'nontrivial': q, 'solver_s': round(ss, 3), 'functions': ['GeographicLib::EllipticFunction::%s(sn, cn, dn)' % name], 'bounds': {'sn': '(0, 1]', 'cn': 'both signs and 0', 'object': 'arbitrary members, complete integrals > 0', 'environment': '0 < X(phi) <= X(pi/2) on the first quadrant (positive integrands)'}}
+    if bad: r.update({'verdict': 'violated', 'detail': 'EllipticFunction::%s: "%s" refuted' % (name, bad['claim']), 'cex': bad})
+    elif unk: r.update({'verdict': 'inconclusive', 'detail': 'unknown: %r' % unk})
+    else: r['verdict'] = 'proved'
+    return r
+
+def replay_ell(cex):
+    """real code: EllipticFunction(k2 = 0.3, alpha2 = 0.2) at phi = 0.7 and pi - 0.7"""
+    import ctypes, math
+    lib = H.native({}, WE); f = lib.vf_ell; f.restype = None; f.argtypes = [ctypes.c_int] + [ctypes.c_double] * 5 + [ctypes.c_void_p]
+    k2, al2, phi = 0.3, 0.2, 0.7; s, c = math.sin(phi), math.cos(phi); d = math.sqrt(1 - k2 * s * s)
+    a = (ctypes.c_double * 2)(); b = (ctypes.c_double * 2)(); z = (ctypes.c_double * 2)(); n = (ctypes.c_double * 2)()
+    f(cex['which'], k2, al2, s, c, d, a); f(cex['which'], k2, al2, s, -c, d, b); f(cex['which'], k2, al2, 1.0, 0.0, math.sqrt(1 - k2), z); f(cex['which'], k2, al2, -s, c, d, n)
+    dev = max(abs(a[0] + b[0] - 2 * a[1]), abs(z[0] - z[1]), abs(n[0] + a[0]))
+    return dev > 1e-12, 'EllipticFunction(k2=0.3, alpha2=0.2)::%s: value at phi=0.7 %.15g, at pi-0.7 %.15g, complete %.15g, at pi/2 %.15g: reflection/quarter-period/oddness defect %.3g' % (cex['fn'], a[0], b[0], a[1], z[0], dev)
+
 def obligations(ctx):
     K = 8 if ctx['tier'] == 'thorough' else 6
-    return [
+    ell = [Ob('Q3.Elliptic.%s.symmetry' % nm, (lambda ctx, nm=nm: ob_ell_sym(ctx, nm)), '[REAL]', 'E2 rsym+z3', 'EllipticFunction::%s(sn, cn, dn): reflection about the quarter period uses the complete integral of the same kind, odd in sn, equals the complete integral at cn = 0 (Carlson integrals opaque)' % nm, timeout=300) for nm in ELL]
+    return ell + [
         Ob('Q1a.tables.first-principles', ob_tables_fp, '[REAL]', 'E2 rsym+z3', 'AuxLatitude::fillcoeff for the 12 conversions among phi, beta, theta, mu (72 polynomials in n) equals the first-principles series (closed forms, meridian-arc integral, reversion, composition)', timeout=600,
            bounds={'order': 6}),
         Ob('Q1b.tables.order8', ob_tables_o8, '[REAL]', 'E2 rsym+z3', 'AuxLatitude::fillcoeff for all 30 conversions (180 polynomials in n, incl. the table offsets ptrs[]) equals the truncation of the order-8 tables', timeout=600, bounds={'order': 6}),
@@ -124,13 +180,15 @@ def obligations(ctx):
     ]
 
 def replay(rp):
+    if rp['cex'].get('kind') == 'ell': return replay_ell(rp['cex'])
     return polyid.replay(rp)
 
 MANIFEST = {
     'engine': 'E2',
     'technique': 'symbolic execution of clang IR over z3 reals; polynomial identities in n against first-principles series (12 conversions) and the order-8 tables (30 conversions); Clenshaw sums as trigonometric identities',
     'text': 'Bounded solver verdicts on the real code of AuxLatitude.cpp: every entry of the 30 series tables (fillcoeff, incl. the ptrs[] offsets) is executed symbolically from the IR and z3 decides equality for all real n with '
-            'an independent derivation (first principles for phi/beta/theta/mu; the order-8 build for chi/xi); the Clenshaw summation equals the explicit trigonometric sum for symbolic coefficients.',
-    'note': 'Exact-real semantics, order 6 as compiled; the exact (Newton / elliptic-integral) conversion paths, Ellipsoid measures and EllipticFunction are not covered by these obligations (accuracy, convergence: DESIGN.md §4). '
+            'an independent derivation (first principles for phi/beta/theta/mu; the order-8 build for chi/xi); the Clenshaw summation equals the explicit trigonometric sum for symbolic coefficients. '
+            'EllipticFunction::F/E/D/Pi/G/H(sn,cn,dn): the trig-like symmetries (second quadrant via the complete integral of the same kind, oddness, quarter-period value) with the Carlson integrals opaque.',
+    'note': 'Exact-real semantics, order 6 as compiled; the exact (Newton / elliptic-integral) conversion paths, Ellipsoid measures and the values of the Carlson integrals RF/RD/RJ/RG (EllipticFunction numerics) are not covered by these obligations (accuracy, convergence: DESIGN.md §4). '
             'Trusted: clang-14, vfw/irparse+rsym (validated each run against the native build), z3, vfw/series.py.',
 }
